@@ -146,3 +146,22 @@ claim("C14", "other",
       "branch folding + statement parsing into (factor, factor, reduction) with frame-index / conjugation / slot rules "
       "(R-SIB, R-LOOPDOM), algebraic time axis (R-ALG), finite decision of the spacing predicate on the extracted condition",
       "DESIGN.md section 4, C14")
+
+claim("C06", "other",
+      "Dynamics / LogDynamics are abstractly interpreted under combinations of (wrapped-only flag, neighbour lists, selection, "
+      "slow/fast) - 6 in the quick tier, all 16 in the thorough tier - and decided structurally for every trajectory: the "
+      "linear variant visits every pair 0<=origin<end<=T-1 once (slot lag-1, one count per visit, all accumulators divided by "
+      "the counts), the log variant uses origin 0; initial positions, the cell handed to remove_pbc, the neighbour list and the "
+      "selection all belong to the origin frame and end positions to the end frame (each per-pair kernel is compared as a whole "
+      "term with the definition); remove_pbc applied exactly when __init__ saw wrapped coordinates only (all three input "
+      "combinations); kernels isf=mean cos(q_i dr), overlap with '<' slow / '>' fast, msd, r4; chi4=(<Q^2>-<Q>^2) N_sel, "
+      "alpha2=alpha2factor(d) r4/r2^2-1 with the 3/5, 1/2 table, q_i=qconst/d_i, (a d_i)^2, time=(t[1:]-t[0])dt; sq4 uses "
+      "n_t=round(t/time[0]), origins 0..T-1-n_t, the origin frame for S(q), mobility mask with origin-frame quantities, mean over "
+      "origins; cage_relative = r_i - mean of columns 1..cn_i (a loop-free rewrite is decided by evaluating the extracted term on "
+      "padded neighbour tables); neighbour-file handle protocol. Not decided: equality of wrapped/unwrapped results on data, "
+      "S4 values.",
+      "Trusted: numpy mean/sum/cos semantics, C02 for remove_pbc, C13/C04 for conditional_sq; idiom tables in "
+      "pmsa/checks/c06.py. The quick tier covers every guarded statement in both polarities but not every flag combination.",
+      "flag-folded abstract interpretation; whole-term comparison of per-pair kernels and final columns in exact algebra "
+      "(R-SIB, R-ALG); loop-domain / slot / count rules (R-LOOPDOM); constructor flag table (R-PBC); handle typestate (R-HANDLE)",
+      "DESIGN.md section 4, C06")
